@@ -90,7 +90,7 @@ impl Deserialize for PlutusMap {
                 cbor_event::Len::Len(n) => total < n as usize,
                 cbor_event::Len::Indefinite => true,
             } {
-                if is_break_tag(raw, "PlutusMap")? {
+                if is_break_tag(raw, len, "PlutusMap")? {
                     break;
                 }
                 let key = PlutusData::deserialize(raw)?;
@@ -279,7 +279,7 @@ impl Deserialize for PlutusList {
                 cbor_event::Len::Len(n) => arr.len() < n as usize,
                 cbor_event::Len::Indefinite => true,
             } {
-                if is_break_tag(raw, "PlutusList")? {
+                if is_break_tag(raw, len, "PlutusList")? {
                     break;
                 }
                 arr.push(PlutusData::deserialize(raw)?);
